@@ -1,7 +1,6 @@
 (* Exec.Proj -- the view of one uid in a global state, and the well-formedness
    invariant under which every global step projects to a local move. *)
 From Coq Require Import ZArith List Bool Lia Permutation.
-Set Default Timeout 30.
 From RP Require Import Common.Eqb Exec.Model Exec.Oracle Exec.Local.
 Import ListNotations.
 Local Open Scope Z_scope.
